@@ -162,6 +162,23 @@ def subclass(klass, sizes):
     return sc
 
 
+def leaf_subclass(tree_klass, leaf_klass, sizes):
+    """A tree subclass whose leaves are instances of a subclass of the family's leaf class (the class attribute
+    _bucket_type that BTree_newBucket / _Tree consult), both importable by name."""
+    key = (tree_klass, 'leafsub', tuple(sizes))
+    sc = _SUBCLASSES.get(key)
+    if sc is None:
+        leaf = type(leaf_klass)(leaf_klass.__name__ + '_sub', (leaf_klass,), {})
+        leaf.__module__ = __name__
+        globals()[leaf.__name__] = leaf
+        sc = type(tree_klass)(tree_klass.__name__ + '_leafsub%d_%d' % tuple(sizes), (tree_klass,),
+                              {'max_leaf_size': sizes[0], 'max_internal_size': sizes[1], '_bucket_type': leaf})
+        sc.__module__ = __name__
+        globals()[sc.__name__] = sc
+        _SUBCLASSES[key] = sc
+    return sc
+
+
 def domain(fam, ktype='int'):
     """Dense, ascending list of key tokens of the family (collisions and neighbours are
     frequent when keys are drawn from it), incl. the extremes of the type."""
